@@ -28,7 +28,7 @@ REQUIRED = ['backends/libwayland_debug_output/parse.py:message',
 
 def plan(tier, seed):
     if tier == 'quick':
-        return [{'n': 2500, 'neg': 300, 'pipe_every': 5, 'fixed_sweep': i == 0} for i in range(12)]
+        return [{'n': 9000, 'neg': 1000, 'pipe_every': 5, 'fixed_sweep': i == 0} for i in range(16)]
     return [{'n': 60000, 'neg': 5000, 'pipe_every': 7, 'fixed_sweep': i < 2} for i in range(48)]
 
 
